@@ -64,16 +64,19 @@ def body_factory(tier, seed):
                 reset = '{"type":"Hard"}' if version == "1.6" else '{"type":"Immediate"}'
                 frames = ['[2,"h1","Heartbeat",{}]', '[2,"r1","Reset",%s]' % reset, '[2,"h2","Heartbeat",{}]', '[2,"r2","Reset",%s]' % reset,
                           '[2,"r3","Reset",%s]' % reset]
-                seq, how = D.observe_loop(version, [bad_hook, good], frames, "closed", False, linger=0.02)
-                rep.count("hook-sequence:%s:%s" % (version, out[0]))
-                afters = [e[1] for e in seq if e[0] == "after"]
-                want = sorted([bad_hook["after"]["name"]] * 2 + [good["after"]["name"]] * 3)
-                if sorted(afters) != want:
-                    rep.violation("C07:hook-sequence:%s:%s" % (version, out[0]),
-                                  "five CALLs on one endpoint, the first action's asynchronous after-hook ends with %r: hooks that ran: %r, "
-                                  "expected each CALL's hook once (%r)" % (out[:2], afters, want),
-                                  {"kind": "hook-sequence", "version": version, "routes": [bad_hook, good], "frames": frames,
-                                   "observation": seq, "ended": how})
+                for linger in (0.02, 0):
+                    # linger 0: the connection breaks right after the last frame -- the hooks of the CALLs that were answered
+                    # still run (the loop's end is not a reason to drop them)
+                    seq, how = D.observe_loop(version, [bad_hook, good], frames, "closed", False, linger=linger)
+                    rep.count("hook-sequence:%s:%s:%s" % (version, out[0], linger))
+                    afters = [e[1] for e in seq if e[0] == "after"]
+                    want = sorted([bad_hook["after"]["name"]] * 2 + [good["after"]["name"]] * 3)
+                    if sorted(afters) != want:
+                        rep.violation("C07:hook-sequence:%s:%s%s" % (version, out[0], "" if linger else ":closing"),
+                                      "five CALLs on one endpoint, the first action's asynchronous after-hook ends with %r: hooks that ran: %r, "
+                                      "expected each CALL's hook once (%r)" % (out[:2], afters, want),
+                                      {"kind": "hook-sequence", "version": version, "routes": [bad_hook, good], "frames": frames,
+                                       "linger": linger, "observation": seq, "ended": how})
         for c in (cases[25], cases[len(cases) // 2], cases[-1]):
             rep.sample({"stratum": c[0], "version": c[1], "frame": str(c[3])[:200]})
     return body
@@ -97,7 +100,7 @@ def replay(d):
             for k in ("on", "after"):
                 if r.get(k):
                     r[k]["out"] = tuple(r[k]["out"])
-        seq, how = D.observe_loop(d["version"], routes, d["frames"], "closed", False, linger=0.02)
+        seq, how = D.observe_loop(d["version"], routes, d["frames"], "closed", False, linger=d.get("linger", 0.02))
         afters = [e[1] for e in seq if e[0] == "after"]
         print("hooks that ran:", afters)
         ok = len(afters) == len(d["frames"])
